@@ -6,13 +6,14 @@ CHECK = {
     "replace": [{"file": "actor/pools.go", "old": "const contextPoolSize = 8192", "new": "const contextPoolSize = 2"},
                 {"file": "actor/unbounded_segmented_mailbox.go", "old": "const segmentSize = 256", "new": "const segmentSize = 2"}],
     "entries": [
-        {"fn": P + "vC04_unbounded", "replay": "model-only"},
-        {"fn": P + "vC04_segmented", "replay": "model-only"},
+        {"fn": P + "vC04_unbounded", "replay": "model-only", "may_be_unreachable": ("a rejected message is never dequeued",)},
+        {"fn": P + "vC04_segmented", "replay": "model-only", "may_be_unreachable": ("a rejected message is never dequeued",)},
         {"fn": P + "vC04_nonblocking", "replay": "model-only", "cover_optional": ("rejected",)},
-        {"fn": P + "vC04_fair", "replay": "model-only"},
-        {"fn": P + "vC04_dbg", "tiers": ("dbg",)},
+        {"fn": P + "vC04_fair", "replay": "model-only", "may_be_unreachable": ("a rejected message is never dequeued",), "opts": {"substitute": {P + "deriveSenderKey": P + "vC04_senderKey", P + "senderLoadOrStore": P + "vC04_loadOrStore"}}},
     ],
-    "opts": {"rounds": 3, "unwind": 4, "unwind_mode": "assume"},
+    "opts": {"rounds": 3, "unwind": 3, "unwind_mode": "assume", "feasibility": False,
+             "loop_bounds": {P + "vC04_scenario$3": 5, P + "vC04_scenario": 8}},
+    "timeout_ms": {"quick": 400000, "thorough": 1800000},
     "explanation": "Enqueue/Dequeue/IsEmpty of the mailbox implementations executed under solver-chosen interleavings (2 producers, 1 consumer) with ghost-tagged contexts; pools (contextCh, segmentPool) included so recycling is reachable.",
     "bounds": {"threads": "2 producers (2+1 messages), 1 consumer (<= 3 dequeues) + sequential drain", "rounds": 3, "segmentSize": 2, "contextPoolSize": 2},
 }
